@@ -228,11 +228,16 @@ class ECDSAKey(PKey):
         return m
 
     def verify_ssh_sig(self, data, msg):
-        if msg.get_text() != self.ecdsa_curve.key_format_identifier:
+        try:
+            if msg.get_text() != self.ecdsa_curve.key_format_identifier:
+                return False
+            sig = msg.get_binary()
+            sigR, sigS = self._sigdecode(sig)
+            # raises ValueError for negative integers
+            signature = encode_dss_signature(sigR, sigS)
+        except (SSHException, ValueError):
+            # malformed signature blob: not a valid signature
             return False
-        sig = msg.get_binary()
-        sigR, sigS = self._sigdecode(sig)
-        signature = encode_dss_signature(sigR, sigS)
 
         try:
             self.verifying_key.verify(
